@@ -154,6 +154,18 @@ type globalVar struct {
 func globals(repo, dir string) []globalVar {
 	files := parseDir(repo, dir)
 	vars := map[string]*globalVar{}
+	// the package's own type declarations, to see through named types (`type UUID []byte`, `type T struct{...}`)
+	typeDecls := map[string]ast.Expr{}
+	for _, f := range files {
+		for _, d := range f.Decls {
+			if gd, ok := d.(*ast.GenDecl); ok && gd.Tok == token.TYPE {
+				for _, s := range gd.Specs {
+					ts := s.(*ast.TypeSpec)
+					typeDecls[ts.Name.Name] = ts.Type
+				}
+			}
+		}
+	}
 	for _, f := range files {
 		for _, d := range f.Decls {
 			gd, ok := d.(*ast.GenDecl)
@@ -166,30 +178,11 @@ func globals(repo, dir string) []globalVar {
 					if id.Name == "_" {
 						continue
 					}
-					kind := "scalar"
-					var t ast.Expr = vs.Type
-					if t == nil && i < len(vs.Values) {
-						if cl, ok := vs.Values[i].(*ast.CompositeLit); ok {
-							t = cl.Type
-						} else if ce, ok := vs.Values[i].(*ast.CallExpr); ok {
-							if se, ok := ce.Fun.(*ast.SelectorExpr); ok && (se.Sel.Name == "New" || se.Sel.Name == "Errorf") {
-								kind = "error"
-							}
-						}
+					var val ast.Expr
+					if i < len(vs.Values) {
+						val = vs.Values[i]
 					}
-					switch t.(type) {
-					case *ast.MapType:
-						kind = "map"
-					case *ast.ArrayType:
-						kind = "slice"
-						if t.(*ast.ArrayType).Len != nil {
-							kind = "array" // fixed-size storage: slicing it hands out a window into the package-level variable
-						}
-					case *ast.StarExpr:
-						kind = "pointer"
-					case *ast.FuncType:
-						kind = "func"
-					}
+					kind := globalKind(typeDecls, vs.Type, val)
 					vars[id.Name] = &globalVar{pkg: dir, name: id.Name, kind: kind}
 				}
 			}
@@ -299,6 +292,101 @@ func globals(repo, dir string) []globalVar {
 	sort.Slice(out, func(i, j int) bool { return out[i].name < out[j].name })
 	return out
 }
+
+// globalKind classifies a package-level variable from its declared type or, without one, from its initialiser:
+// error | map | slice | array | scalar | func | pointer | struct | interface | chan | foreign (type of another
+// package) | unknown (initialised by something whose type the syntactic pass cannot see).  Named types of the package
+// are followed to their definition.  pointer / struct / interface / chan / foreign / unknown are potential hidden
+// state: an object whose pointer-receiver methods mutate it without any assignment to the variable itself, so the
+// writers pass cannot vouch for it.
+func globalKind(typeDecls map[string]ast.Expr, t, val ast.Expr) string {
+	if t == nil {
+		switch v := val.(type) {
+		case *ast.CompositeLit:
+			t = v.Type
+		case *ast.UnaryExpr:
+			if v.Op == token.AND { // &T{...}
+				return "pointer"
+			}
+			return "scalar"
+		case *ast.FuncLit:
+			return "func"
+		case *ast.CallExpr:
+			if se, ok := v.Fun.(*ast.SelectorExpr); ok {
+				if x, ok := se.X.(*ast.Ident); ok && ((x.Name == "errors" && se.Sel.Name == "New") || (x.Name == "fmt" && se.Sel.Name == "Errorf")) {
+					return "error"
+				}
+			}
+			if id, ok := v.Fun.(*ast.Ident); ok {
+				switch {
+				case id.Name == "new":
+					return "pointer"
+				case id.Name == "make" && len(v.Args) > 0:
+					return globalKind(typeDecls, v.Args[0], nil)
+				case len(v.Args) == 1: // conversion T(x) to a type of the package or a basic type
+					if _, ok := typeDecls[id.Name]; ok || basicTypes[id.Name] {
+						return globalKind(typeDecls, id, nil)
+					}
+				}
+			}
+			return "unknown"
+		case *ast.BasicLit, *ast.BinaryExpr:
+			return "scalar"
+		case *ast.Ident:
+			if v.Name == "true" || v.Name == "false" || v.Name == "iota" {
+				return "scalar"
+			}
+			return "unknown"
+		default:
+			return "unknown"
+		}
+	}
+	for depth := 0; depth < 20; depth++ {
+		switch x := t.(type) {
+		case *ast.ParenExpr:
+			t = x.X
+			continue
+		case *ast.MapType:
+			return "map"
+		case *ast.ArrayType:
+			if x.Len != nil {
+				return "array" // fixed-size storage: slicing it hands out a window into the package-level variable
+			}
+			return "slice"
+		case *ast.StarExpr:
+			return "pointer"
+		case *ast.FuncType:
+			return "func"
+		case *ast.StructType:
+			return "struct"
+		case *ast.InterfaceType:
+			return "interface"
+		case *ast.ChanType:
+			return "chan"
+		case *ast.SelectorExpr:
+			return "foreign"
+		case *ast.Ident:
+			if basicTypes[x.Name] {
+				return "scalar"
+			}
+			if x.Name == "error" {
+				return "error"
+			}
+			if u, ok := typeDecls[x.Name]; ok {
+				t = u
+				continue
+			}
+			return "unknown"
+		default:
+			return "unknown"
+		}
+	}
+	return "unknown"
+}
+
+var basicTypes = map[string]bool{"bool": true, "string": true, "int": true, "int8": true, "int16": true, "int32": true, "int64": true,
+	"uint": true, "uint8": true, "uint16": true, "uint32": true, "uint64": true, "uintptr": true, "byte": true, "rune": true,
+	"float32": true, "float64": true, "complex64": true, "complex128": true}
 
 func exprRecv(e ast.Expr) string {
 	switch x := e.(type) {
